@@ -285,4 +285,32 @@ def multiplies_variable(stms):
     return False
 
 
-PROGRAM_PATTERNS = {"multiplies_variable": multiplies_variable}
+def aggregate_result_equated_with_variable_inside_aggregate(stms):
+    """`X = #agg{ .. T .. }, T = f(X)`: an equality whose one side is a variable that occurs inside an aggregate element and
+    whose other side contains the value of an aggregate (normalize inlines T and makes the aggregates depend on their own
+    results; the pattern of KF3)"""
+    from clingo.ast import ComparisonOperator
+
+    for s in stms:
+        if s.ast_type not in (ASTType.Rule, ASTType.Minimize):
+            continue
+        results, inside = set(), set()
+        for b in s.body:
+            if b.ast_type == ASTType.Literal and b.atom.ast_type in (ASTType.BodyAggregate, ASTType.Aggregate):
+                for g in (b.atom.left_guard, b.atom.right_guard):
+                    if g is not None and g.comparison == ComparisonOperator.Equal:
+                        results |= {m.name for m in walk(g.term) if m.ast_type == ASTType.Variable}
+                for e in b.atom.elements:
+                    inside |= {m.name for m in walk(e) if m.ast_type == ASTType.Variable}
+        for b in s.body:
+            if b.ast_type == ASTType.Literal and b.atom.ast_type == ASTType.Comparison and len(b.atom.guards) == 1 and (
+                    (b.sign == Sign.NoSign and b.atom.guards[0].comparison == ComparisonOperator.Equal)
+                    or (b.sign == Sign.Negation and b.atom.guards[0].comparison == ComparisonOperator.NotEqual)):
+                for lhs, rhs in ((b.atom.term, b.atom.guards[0].term), (b.atom.guards[0].term, b.atom.term)):
+                    if lhs.ast_type == ASTType.Variable and lhs.name in inside and results & {m.name for m in walk(rhs) if m.ast_type == ASTType.Variable}:
+                        return True
+    return False
+
+
+PROGRAM_PATTERNS = {"multiplies_variable": multiplies_variable,
+                    "aggregate_result_equated_with_variable_inside_aggregate": aggregate_result_equated_with_variable_inside_aggregate}
